@@ -659,7 +659,9 @@ def selftest():
     # only the mechanics of the harness are asserted here (what the driver did is the check's business)
     if len(x.facts) != 3 or x.round != 3:
         raise HarnessError('c44 selftest: %d observation points, %d rounds' % (len(x.facts), x.round))
-    if not (3 * INTERVAL < x.elapsed < 4 * INTERVAL + 2 * TIMEOUT):
+    # how long the driver takes for three rounds is the check's business too (a driver that waits two intervals
+    # between rounds must end as a violation, not as a harness error): only "virtual time advanced" is asserted
+    if not x.elapsed > 0:
         raise HarnessError('c44 selftest: virtual time %r' % (x.elapsed,))
     v = {'conns': [{'holder': 0, 'rounds': [['idle', 'supported'], ['idle', 'supported']]}], 'sabotage': 'leak'}
     x = run_history(v)
